@@ -1,0 +1,15 @@
+//go:build verif
+
+package cleaner
+
+// VerifLockProbeIsFree reports whether the lock of the IdleInvoker can
+// currently be acquired. The lock is released again immediately. This
+// hook is only used by external verification tooling (property C14)
+// and never decides anything.
+func (i *IdleInvoker) VerifLockProbeIsFree() bool {
+	if !i.lock.TryLock() {
+		return false
+	}
+	i.lock.Unlock()
+	return true
+}
